@@ -501,6 +501,29 @@ def print_assumptions(prop_vfile, scratch):
     return names, closed, axioms, rc
 
 
+def coqchk_once(fingerprint):
+    """thorough tier: re-check every compiled property file (and all they depend on) with the independent checker coqchk and
+    list the axioms; cached per build fingerprint"""
+    cpath = os.path.join(BUILD, "coqchk.json")
+    try:
+        c = json.load(open(cpath))
+        if c.get("fingerprint") == fingerprint:
+            return c
+    except Exception:
+        pass
+    mods = ["Spg.Properties." + os.path.basename(v)[:-2] for v in coq_vfiles() if v.startswith("Properties/")]
+    args = ["coqchk", "-silent", "-o"]
+    for d in ("Base", "Model", "Proofs", "Properties", "Gen", "Extract"):
+        args += ["-Q", d, "Spg." + d]
+    t0 = time.time()
+    rc, out = sh(args + mods, cwd=COQ, timeout=5400)
+    m = re.search(r"\* Axioms:(.*?)\n\s*\n", out, re.S)
+    axioms = (m.group(1).strip() if m else "?")
+    c = {"fingerprint": fingerprint, "rc": rc, "axioms": axioms, "modules": mods, "wall_s": round(time.time() - t0, 1), "tail": out[-1500:]}
+    json.dump(c, open(cpath, "w"), indent=1)
+    return c
+
+
 # ------------------------------------------------------------------ verdict / evidence
 
 def load_known():
@@ -578,6 +601,7 @@ def write_evidence(ctx, proof, wall_s, violations):
             "theorems_closed_under_global_context": proof["closed"],
             "axioms_reported": proof["axioms"],
             "proof_files": proof["files"],
+            "coqchk": proof.get("coqchk"),
             "hygiene_findings": ctx.build.hygiene,
             "evaluations": ctx.evaluations,
             "distinct_nontrivial": len(ctx.nontrivial),
@@ -648,6 +672,13 @@ def run_check(prop, mod, tier, seed):
             if rc != 0 or closed != len(names) or not names:
                 broken.append({"what": "proof", "detail": "Print Assumptions not closed for all theorems of " + prop_file,
                                "log": "\n".join(axioms)[-1500:]})
+        if tier == "thorough" and not bad_files:
+            with open(os.path.join(BUILD, ".lock"), "w") as lk:
+                fcntl.flock(lk, fcntl.LOCK_EX)
+                chk = coqchk_once(build.fingerprint)
+            proof["coqchk"] = {k: chk[k] for k in ("rc", "axioms", "wall_s")}
+            if chk["rc"] != 0 or chk["axioms"] != "<none>":
+                broken.append({"what": "proof", "detail": "coqchk: exit %s, axioms: %s" % (chk["rc"], chk["axioms"]), "log": chk["tail"][-800:]})
         if build.hygiene:
             broken.append({"what": "hygiene", "detail": "; ".join(build.hygiene[:10])})
         if not build.translator_ok:
